@@ -127,6 +127,11 @@ impl World {
 
     /// Expected outcome of a request.
     pub fn expect(&self, op: &Op) -> Expect {
+        // programs with `Post::SpecPrev` (impure user code): whether the creator panics depends
+        // on whether it is re-executed, which the memo-free reference does not know
+        if self.code.iter().any(|e| format!("{e:?}").contains("SpecPrev")) && !matches!(op, Op::Set(..) | Op::Syn(_)) {
+            return Expect::Undefined;
+        }
         let r = match op {
             Op::Q(n) | Op::QClone(n) => self.value_of_node(*n),
             Op::Q2(n, s) => self.value_of(F::Ev2, *n, *s),
@@ -608,6 +613,7 @@ impl<'w> Rf<'w> {
                             }
                         }
                     }
+                    Post::SpecPrev { .. } => {}
                     Post::SpecOther { cond, node, idx, val } => {
                         if eval(self, cond) != 0 {
                             let _ = eval(self, val);
